@@ -491,7 +491,10 @@ func (x *Exec) applyContract(fr *Frame, st *State, spec *FuncSpec, key string, n
 				x.em.assume(fmt.Sprintf("(forall ((%s Int)) (! (=> (<= %s %s) (= (select %s %s) (select %s %s))) :pattern ((select %s %s))))",
 					q, q, pre.Frontier, nw, q, old, q, nw, q))
 				st.Heap[k] = nw
-				x.recordWrite(k, "", false)
+				savedNew := x.storeNew
+				x.storeNew = true
+				x.recordWrite(k, x.em.fresh("new!alloc"), false)
+				x.storeNew = savedNew
 			}
 		}
 	}
